@@ -24,6 +24,8 @@ SIG_F20 = 'gridding-index-minus-one-wraps-to-last-grid-value'
 SIG_DL = 'gridding-antimeridian-met-at-start-latitude'
 SIG_Z = 'gridding-zero-length-antimeridian-segment-nan'
 SIG_POLE = 'gridding-pole-intersection-latitude-out-of-range-nan'
+SIG_ILL = 'gridding-nearly-axis-parallel-segment-cancellation-excess'
+TINY = ['ulp', 1e-12, 4e-9, 1e-8, 1e-7]     # |dlat| or |dlon| of the nearly zonal / nearly meridional stream (rad)
 
 PI = math.pi
 LAT_MAX = 1.55        # generated latitudes stay within +-88.8 degrees
@@ -322,6 +324,35 @@ def expected_segment(case, j, bent=False):
     return pieces, D, E
 
 
+def conditioning(case, j, bent=False):
+    """How well the positions of the grid-line crossings of segment j are determined in binary64.  A crossing of a
+    latitude line is located by dividing a difference of latitudes by dlat (and symmetrically for longitude lines):
+    its parameter along the segment carries an absolute error of about eps * |coordinate| / |dlat|.  For ordinary
+    segments this is ~1e-12; for a nearly zonal / nearly meridional segment that straddles a grid line (|dlat| or
+    |dlon| of 1e-8 ... a few ulp) WHERE along the segment the line is met is ill-conditioned — the segment is within
+    |dlat| of the line over its whole length — and every oracle tolerance on shares is widened by this amount.
+    Which cells are touched, array lengths, order, never-less are NOT relaxed."""
+    eps = 2.220446049250313e-16
+    k = 0.0
+    for A, B in legs_of_segment(case, j, bent):
+        for ax, g in ((0, case['glat']), (1, case['glon'])):
+            lo_, hi_ = min(A[ax], B[ax]), max(A[ax], B[ax])
+            if lo_ < hi_ and any(lo_ <= x <= hi_ for x in g):
+                k = max(k, 16 * eps * max(1.0, abs(A[ax]), abs(B[ax])) / (hi_ - lo_))
+    return k
+
+
+def fine_factor(case, j, bent=False, n=2000):
+    """(length of the segment's map line measured in n small great-circle pieces per leg) / D: the largest chord
+    factor ANY monotone chain of points of the segment can produce (triangle inequality)."""
+    tot, D = 0.0, 0.0
+    for A, B in legs_of_segment(case, j, bent):
+        pts = [(A[0] + (B[0] - A[0]) * i / n, A[1] + (B[1] - A[1]) * i / n) for i in range(n)] + [B]
+        tot += math.fsum(dist_many(pts[:-1], pts[1:]))
+        D += dist_many([A], [B])[0]
+    return tot / D if D else None
+
+
 def blocks_by_segment(out, nseg):
     """Split the implementation's flat output into per-segment blocks using the instrumentation state variable
     (last state variable = number of the segment's start point)."""
@@ -396,7 +427,7 @@ def c04_oracle(case, out):
     for v in ints:
         if len(v) != L:
             return [(f'integrated output has length {len(v)}, cells {L}', None)]
-    f3_hits, z_hits, p_hits, other = [], [], [], []
+    f3_hits, z_hits, p_hits, ill_hits, other = [], [], [], [], []
     tot_impl = [0.0] * len(ints)
     tot_want_lo = [0.0] * len(ints)
     if blocks is None:
@@ -431,7 +462,14 @@ def c04_oracle(case, out):
                     else:
                         other.append(f'segment {j} (zero length) variable {k}: pieces sum to {got!r}, value {vj!r}')
                 continue
-            ok = any(e is not None and close(got, vj * e, rel=1e-9, abs_=1e-300) for e in Es)
+            kappa = conditioning(case, j)
+            ok = any(e is not None and close(got, vj * e, rel=1e-9 + kappa, abs_=1e-300) for e in Es)
+            if ok and kappa > 1e-9 and vj > 0:
+                # ill-conditioned crossing position: whatever split is chosen, a chain of points OF the segment
+                # cannot measure more than the finely subdivided map line
+                fine = max(x for x in (fine_factor(case, j), fine_factor(case, j, True) if len(Es) == 2 else None) if x)
+                if got > vj * fine * (1 + 1e-6):
+                    ill_hits.append((j, k, vj, got / (vj * Es[0])))
             if not ok and got != got and j in pole_nan:
                 p_hits.append((j, k, vj))
             elif not ok:
@@ -444,6 +482,14 @@ def c04_oracle(case, out):
                 other.append(f'variable {k}: gridded total {tot_impl[k]!r} < trajectory total {tot_want_lo[k]!r}')
     for o in other:
         probs.append((o, None))
+    if ill_hits:
+        j, k, vj, ratio = max(ill_hits, key=lambda x: x[3])
+        d = min(abs(case['lats'][j + 1] - case['lats'][j]) or 9.0, abs(case['lons'][j + 1] - case['lons'][j]) or 9.0)
+        probs.append((f'segment {j} is nearly parallel to a grid line it straddles (coordinate change {d!r} rad): the '
+                      f'intersection coordinate computed as slope * line + intercept loses all its digits to cancellation, '
+                      f'lands outside the segment, and variable {k} is gridded to {ratio:.4f} times its value (more than '
+                      f'any chain of points of the segment can measure)',
+                      SIG_ILL if (not other and d <= 1e-13) else None))
     if p_hits:
         j, k, vj = p_hits[0]
         probs.append((f'segment {j} has an end point exactly on a pole: an intersection latitude computed from '
@@ -594,6 +640,31 @@ def gen_case(rng):
         lons.append(pick_coord(rng, glon, lo_, hi_, 0.6 if abs(lats[-1]) >= PI / 2 else 0.25, p_low))
     if polar and any(abs(x) >= PI / 2 for x in lats):
         kinds.append('pole')
+    if not dateline and rng.random() < 0.10:
+        # a nearly zonal / nearly meridional leg whose tiny coordinate change straddles a grid line
+        zonal = rng.random() < 0.5
+        g, other = (glat, glon) if zonal else (glon, glat)
+        cand = [x for x in g[1:-1] if x != 0.0 and (not zonal or abs(x) < LAT_MAX)]
+        if cand:
+            line, tiny = rng.choice(cand), rng.choice(TINY)
+            if tiny == 'ulp':
+                a, b = math.nextafter(line, -10.0), math.nextafter(line, 10.0)
+            else:
+                f = rng.uniform(0.2, 0.8)
+                a, b = line - f * tiny, line + (1 - f) * tiny
+            if rng.random() < 0.5:
+                a, b = b, a
+            olo, ohi = (other[0], other[-1]) if not zonal else (max(other[0], lons[-1] - 1.0), min(other[-1], lons[-1] + 1.0))
+            if zonal:
+                o0 = pick_coord(rng, other, olo, ohi, 0.2, 0.0)
+                o1 = pick_coord(rng, other, max(other[0], o0 - 0.7), min(other[-1], o0 + 0.7), 0.2, 0.0)
+                lats += [a, b]; lons += [o0, o1]                                    # noqa: E702
+            else:
+                o0 = pick_coord(rng, other, max(other[0], -LAT_MAX), min(other[-1], LAT_MAX), 0.2, 0.0)
+                o1 = pick_coord(rng, other, max(other[0], o0 - 0.7, -LAT_MAX), min(other[-1], o0 + 0.7, LAT_MAX), 0.2, 0.0)
+                if abs(a - lons[-1]) < PI:
+                    lats += [o0, o1]; lons += [a, b]                                # noqa: E702
+            kinds.append(('nearly-zonal:' if zonal else 'nearly-meridional:') + str(tiny))
     n = len(lats)
     alts = times = None
     if galt is not None and rng.random() < 0.85:
@@ -731,7 +802,8 @@ def robustness_probes(case, st, iv, out):
             probs.append('passing the time axis as datetime64[ms] instead of the same numbers changes the result')
     # latitudes / longitudes as float32: only gross properties (lengths, finiteness, never less, total within 0.1 %
     # of the binary64 run)
-    if not any(abs(b_ - a_) > 3.0 for a_, b_ in zip(case['lons'][:-1], case['lons'][1:])) and \
+    if not any(str(k_).startswith('nearly-') for k_ in case.get('kinds', [])) and \
+            not any(abs(b_ - a_) > 3.0 for a_, b_ in zip(case['lons'][:-1], case['lons'][1:])) and \
             all(abs(x) <= PI / 2 for x in f32(case['lats'])):      # float32(pi/2) > pi/2 is not a latitude
         o32 = run_impl(case, st, iv, coord_dtype='float32')
         n = len(o32['lat'])
